@@ -20,6 +20,7 @@ import (
 	_ "go.amzn.com/verifh/c16"
 	_ "go.amzn.com/verifh/c17"
 	_ "go.amzn.com/verifh/c18"
+	_ "go.amzn.com/verifh/c19"
 	_ "go.amzn.com/verifh/c20"
 	_ "go.amzn.com/verifh/smoke"
 )
